@@ -109,13 +109,16 @@ class SimAwareLock:
     install_lock_seam): a simulated thread that finds it taken parks under scheduler
     control instead of blocking the process; any other thread gets the real behaviour."""
 
-    def __init__(self, real):
+    def __init__(self, real, package=None):
         self._real = real
+        self._package = package      # lock living inside a dependency: only relevant when that
+                                     # dependency's code is being pre-empted
 
     def acquire(self, blocking=True, timeout=-1):
         s = ACTIVE["sched"]
         t = s.current if s is not None else None
-        if s is None or t is None or threading.current_thread() is not t.thread:
+        if s is None or t is None or threading.current_thread() is not t.thread \
+                or (self._package is not None and self._package not in s.packages):
             return self._real.acquire(blocking, timeout)
         s.yield_point(("lock", "acquire"))
         while not self._real.acquire(False):
@@ -180,9 +183,34 @@ def install_lock_seam():
     _LOCKS_INSTALLED["done"] = True
 
 
+_AWARE_PKGS = set()
+
+
+def make_package_locks_aware(package):
+    """Locks that live inside a dependency whose code is pre-empted must be scheduler-aware
+    too: astropy's `lazyproperty` guards every getter with a per-descriptor RLock, and a
+    simulated thread parked inside such a getter would block the others for ever."""
+    if package in _AWARE_PKGS:
+        return
+    _AWARE_PKGS.add(package)
+    try:
+        from astropy.utils.decorators import lazyproperty
+    except Exception:
+        return
+    for name, m in list(sys.modules.items()):
+        if not (name == package or name.startswith(package + ".")) or m is None:
+            continue
+        for v in list(vars(m).values()):
+            if isinstance(v, type):
+                for w in list(vars(v).values()):
+                    if isinstance(w, lazyproperty) and not isinstance(getattr(w, "_lock", None), SimAwareLock) \
+                            and getattr(w, "_lock", None) is not None:
+                        w._lock = SimAwareLock(w._lock, package)
+
+
 class Sched:
     def __init__(self, ctx, switch_eighths=1, trace_files=("readers", "utils.py"), max_steps=200000,
-                 tool_id=4, step_mode=False):
+                 tool_id=4, step_mode=False, packages=()):
         self.ctx = ctx
         self.tape = ctx.tape
         self.switch = switch_eighths
@@ -194,7 +222,11 @@ class Sched:
         self.error = None
         from . import linemon
         install_lock_seam()
-        self.mon = linemon.get_monitor("sched-" + "+".join(trace_files), tool_id, tuple(trace_files))
+        for pkg in packages:
+            make_package_locks_aware(pkg)
+        self.mon = linemon.get_monitor("sched-" + "+".join(trace_files) + "+" + "+".join(packages),
+                                       tool_id, tuple(trace_files), tuple(packages))
+        self.packages = tuple(packages)
         self.step_mode = step_mode      # hand control back to the driver whenever a thread finishes
         self.started = False
         self.switches = 0
